@@ -85,6 +85,10 @@ def _k1_job(job):
         if keyv in seen and seen[keyv] != (is_err, sorted(codes)):
             part.add('C06/K1/hash-order-dependence', 'result of semantic() depends on the iteration order of the source map: %s vs %s' % (seen[keyv], (is_err, sorted(codes))), wit, None)
         seen.setdefault(keyv, (is_err, sorted(codes)))
+        if not part.findings and len(part.validate) < 2:
+            kinds = ['bad_syntax' if not p else 'good' for p in pok]
+            if not aok and 'good' in kinds: kinds[kinds.index('good')] = 'bad_sem'
+            part.validate.append(('project', (kinds,)))
         if len(part.samples) < 2: part.samples.append({'outcomes': wit, 'result': 'Err%s' % codes if is_err else 'Ok', 'events': list(events)[:6]})
     M.explore(entry, on_path)
     part.queries += M.stats['smt']; part.encoded = set(M.encoded); part.models = set(M.models_used)
@@ -176,6 +180,7 @@ def _k3_job(job):
             role = 'C03/K3/declaration-dropped/%s/%s' % ('same-name' if dup else 'distinct-names', classes)
             part.add(role, 'toposort re-assembly returns %d of %d declarations (%s named %s): a declaration is silently dropped before any rule sees it' % (n_out, K, '+'.join(kinds), names),
                      {'kinds': list(kinds), 'names': names, 'source': src}, ('dupdecl', (src, dup)))
+        elif not dup and len(part.validate) < 1: part.validate.append(('dupdecl', (src, dup)))
         if len(part.samples) < 1: part.samples.append({'kinds': list(kinds), 'names': names, 'declarations_out': n_out})
     M.explore(entry, on_path)
     part.queries += M.stats['smt']; part.encoded = set(M.encoded); part.models = set(M.models_used)
